@@ -7,12 +7,13 @@ import Driver.C18
 import Driver.C17
 import Driver.C20
 import Driver.MocSet
+import Driver.ST
 
 open Drv
 
 def step (line : String) : String :=
   let toks := (line.trimAscii.toString.splitOn " ").filter (· ≠ "")
-  match (stepC01 toks <|> stepExpr toks <|> stepC03 toks <|> stepC06 toks <|> stepC05 toks <|> stepC18 toks <|> stepC17 toks <|> stepC20 toks <|> stepMocSet toks <|> stepCrash toks) with
+  match (stepC01 toks <|> stepExpr toks <|> stepC03 toks <|> stepC06 toks <|> stepC05 toks <|> stepC18 toks <|> stepC17 toks <|> stepC20 toks <|> stepMocSet toks <|> stepCrash toks <|> stepST toks) with
   | some out => out
   | none => "bad-op"
 
